@@ -32,7 +32,7 @@ def reader_consts_ok(t):
     return None, None
 
 
-def check_loop(chk, inst, res, where, *, jaxpr=P("jaxpr"), eqns=None, const_wrap=None, invar_value=None, dispatch_ok=None, rule="INTERP-SKELETON", wrap_invals=None, final_read=True):
+def check_loop(chk, inst, res, where, *, jaxpr=P("jaxpr"), eqns=None, const_wrap=None, invar_value=None, dispatch_ok=None, rule="INTERP-SKELETON", wrap_invals=None, final_read=True, out_wrap=None):
     """obligations of the canonical loop: bind constvars -> bind invars -> for eqn: read invars, get_bind_params, subfuns+invals, dispatch|bind,
     wrap single result, write outvars -> read jaxpr.outvars"""
     eff = res.env.get("__effects__", [])
@@ -94,6 +94,15 @@ def check_loop(chk, inst, res, where, *, jaxpr=P("jaxpr"), eqns=None, const_wrap
     if not final_read:
         return dict(outvals=outvals, leaves=leaves)
     ret = res.ret
-    okret = is_call(ret, "safe_map") and is_env_method(ret[2][0], "read") and ret[2][0][1] in envs and len(envs) == 1 and ret[2][1] == A("outvars")
+    is_read = lambda t: is_call(t, "safe_map") and is_env_method(t[2][0], "read") and t[2][0][1] in envs and len(envs) == 1 and t[2][1] == A("outvars")
+    # the outputs are the read itself, or an elementwise post-processing of it (a family over the read); `out_wrap(elem, body)` judges the latter
+    read = ret[1] if is_t(ret, "fam") and is_read(ret[1]) else ret
+    okret = is_read(read)
     chk.require(okret, rule, inst + "/outputs", "outputs read after the loop", derived=show(ret)[:160], expected="safe_map(env.read, jaxpr.outvars)", where=where)
+    if okret and out_wrap is not None:
+        body = ret[2] if is_t(ret, "fam") else None
+        okw, exp = out_wrap(mk_elem(read), body)
+        chk.require(okw, rule, inst + "/outputs-wrapped", "post-processing of the values read for jaxpr.outvars", derived=show(body)[:200] if body is not None else "the raw read is returned", expected=exp, where=where)
+    elif okret and is_t(ret, "fam"):
+        chk.require(ret[2] == mk_elem(read), rule, inst + "/outputs-wrapped", "outputs are returned as read", derived=show(ret[2])[:200], expected="the values read, unchanged", where=where)
     return dict(outvals=outvals, leaves=leaves)
